@@ -151,7 +151,7 @@ func MainWith(prop string, extra []*drv.Domain) {
 	d("sym-closure-h10", "BFS closure, symbolic, complete alphabet, h=10", "t", tSymClosure)
 	d("sym-chain", "whole key life, symbolic, every even h 4..18: every index, lock-step walkers, boundary jumps", "", qSymChain)
 	d("sym-chain-h20-24", "whole key life, symbolic, h=20..24", "t", tSymChain)
-	if prop == "C01" || prop == "C02" {
+	if prop == "C01" {
 		type seg struct {
 			h        int
 			from, to uint64
